@@ -18,16 +18,17 @@ let res_s = function
 
 let user_s (u : DescStore.user) = zs u.DescStore.u_perm ^ ":" ^ zs u.DescStore.u_pw
 
-let state_s (f : DescStore.file) =
+let rec state_s (f : DescStore.file) =
   match f with
   | None -> "absent"
-  | Some (c, s) ->
+  | Some (c, s) -> proj_s c ^ " tag=" ^ hex_of_bytes (DescStore.make_etag s)
+and proj_s (c : DescStore.content) =
+  (fun s ->
      let us = List.sort (fun (a, _) (b, _) -> compare (int_of_z a) (int_of_z b)) c.DescStore.c_users in
      let u = if us = [] then "-" else
        String.concat "," (List.map (fun (k, x) -> zs k ^ ":" ^ user_s x) us) in
      let w = match c.DescStore.c_wild with None -> "-" | Some x -> user_s x in
-     "d=" ^ zs c.DescStore.c_desc ^ " u=" ^ u ^ " w=" ^ w ^ " k=" ^ zs c.DescStore.c_keys
-     ^ " tag=" ^ hex_of_bytes (DescStore.make_etag s)
+     "d=" ^ zs c.DescStore.c_desc ^ " u=" ^ u ^ " w=" ^ w ^ " k=" ^ zs c.DescStore.c_keys) ()
 
 let parse_user s =
   match String.split_on_char ':' s with
@@ -138,6 +139,62 @@ let comp_descstore : Registry.comp = fun params ->
            st := f';
            let s = int_of_z (DescStore.http_status r h) in
            if s = 201 || s = 204 then "2xx" else string_of_int s)
+    | ["ls2"; rb; ra; final; size; mtime; bk; bt; btag; barg; ah; ak; at; aim; ainm; aarg] ->
+       (* two requests that were queued on groups.mu together: which got the
+          lock first is not determined; the outcome (results and final
+          definition, given as arguments) must be that of ONE of the two serial
+          orders.  A version replaced at once gets a dummy stamp. *)
+       let final_s = String.concat "" (List.map (fun x -> String.make 1 (Char.chr (int_of_z x))) (bytes_of_hex final)) in
+       let fin = (z size, z mtime) and dummy = (z "1", z "1") in
+       let run_b f ns =
+         let o = match bk with
+           | "updesc" -> DescStore.OUpdateDescription (bytes_of_hex btag, z barg, ns)
+           | "deldesc" -> DescStore.ODeleteDescription (bytes_of_hex btag)
+           | "upuser" -> DescStore.OUpdateUser (target bt, bytes_of_hex btag, z barg, ns)
+           | "deluser" -> DescStore.ODeleteUser (target bt, bytes_of_hex btag, ns)
+           | "setpw" -> DescStore.OSetPassword (target bt, z barg, ns)
+           | "setkeys" -> DescStore.OSetKeys (z barg, ns)
+           | _ -> failwith "ls2: bad B" in
+         match DescStore.step wr f o with
+         | (f', DescStore.OutRes r) -> (f', res_s r)
+         | _ -> failwith "ls2" in
+       let run_a f ns =
+         if ah = "1" then begin
+           let r = req_of ak at aim ainm aarg in
+           match !pending with
+           | None -> (f, "404")
+           | Some e ->
+              let (f', h) = DescStore.write_step wr r e f ns in
+              let s = int_of_z (DescStore.http_status r h) in
+              (f', if s = 201 || s = 204 then "ok" else string_of_int s)
+         end else begin
+           let o = match ak with
+             | "updesc" -> DescStore.OUpdateDescription (bytes_of_hex aim, z aarg, ns)
+             | "deldesc" -> DescStore.ODeleteDescription (bytes_of_hex aim)
+             | "upuser" -> DescStore.OUpdateUser (target at, bytes_of_hex aim, z aarg, ns)
+             | "deluser" -> DescStore.ODeleteUser (target at, bytes_of_hex aim, ns)
+             | "setpw" -> DescStore.OSetPassword (target at, z aarg, ns)
+             | "setkeys" -> DescStore.OSetKeys (z aarg, ns)
+             | _ -> failwith "ls2: bad A" in
+           match DescStore.step wr f o with
+           | (f', DescStore.OutRes r) -> (f', res_s r)
+           | _ -> failwith "ls2"
+         end in
+       let nostamp f = match f with None -> "absent" | Some (c, _) -> proj_s c in
+       let try_order first second r1 r2 =
+         (* the first acknowledged write keeps the final stamp only if the
+            second request wrote nothing *)
+         let ns1 = if r2 = "ok" then dummy else fin in
+         let (f1, x1) = first !st ns1 in
+         let (f2, x2) = second f1 fin in
+         (x1 = r1 && x2 = r2 && nostamp f2 = final_s, f2) in
+       let (ok1, f_ba) = try_order run_b run_a rb ra in
+       if ok1 then (st := f_ba; "serial")
+       else begin
+         let (ok2, f_ab) = try_order run_a run_b ra rb in
+         if ok2 then (st := f_ab; "serial")
+         else (st := f_ba; "not-serialisable: B;A gives " ^ nostamp f_ba ^ ", A;B gives " ^ nostamp f_ab)
+       end
     | ["rwrace"; _] ->
        (* readers take content and stamp from ONE version (read_description):
           no served pair is foreign (C18_content_matches_tag) *)
